@@ -103,11 +103,19 @@ class W:
         from custom_components.pyscript.global_ctx import GlobalContextMgr
         a = AstEval(ctx_name, GlobalContextMgr.get(ctx_name))
         Function.install_ast_funcs(a)
+        # older AstEval versions collect exceptions (get_exception_obj); the pinned one raises them
+        get_exc = getattr(a, "get_exception_obj", lambda: None)
         a.parse(src)
+        if get_exc():
+            raise get_exc()
         try:
-            return await a.eval()
+            r = await a.eval()
         finally:
             await settle(self.loop)
+        exc = get_exc()
+        if exc:
+            raise exc
+        return r
 
     def write(self, rel, text, mtime=None):
         p = os.path.join(self.pdir, rel)
